@@ -19,6 +19,14 @@ PROFILES = ["faultfree", "loss", "dup", "reorder", "stall", "mixed"]
 
 
 def gen_case(seed: int, tier: str, index: int) -> Dict[str, Any]:
+    if index % 3 == 2:
+        from props import c05_t
+
+        return c05_t.gen_case(seed, tier, index // 3, _gen_case_a)
+    return _gen_case_a(seed, tier, index)
+
+
+def _gen_case_a(seed: int, tier: str, index: int) -> Dict[str, Any]:
     rng = random.Random(mix(seed, "c05.case"))
     world = "A"
     profile = PROFILES[index % len(PROFILES)] if index < 3 * len(PROFILES) else rng.choice(PROFILES)
@@ -297,7 +305,8 @@ RULE = ("Each run = real client connected to the model spa; the spa emits a seed
         "least two messages arrived at one handler instance; distinct = distinct event-log digest.")
 SHAPE_MEASURE = "hash of (arrivals, partial writes, fired fault counts) per run"
 COMPONENTS = {
-    "real": ["GeckoAsyncPartialStatusBlockProtocolHandler", "GeckoAsyncSpa._async_on_partial_status_update", "packet un-wrapper + queue",
+    "real": ["World T (1 run in 3): GeckoSpa + GeckoPartialStatusBlockProtocolHandler + GeckoSpa._on_partial_status_update on the real engine thread",
+             "GeckoAsyncPartialStatusBlockProtocolHandler", "GeckoAsyncSpa._async_on_partial_status_update", "packet un-wrapper + queue",
              "GeckoAsyncStructure", "GeckoPartialStatusBlockProtocolHandler.report_changes (spa side encoder)", "GeckoSimulator engine"],
     "stub": ["when/what the spa emits -> harness plan via ModelSpa.emit_statp", "sockets/clock/selector"],
 }
@@ -308,7 +317,7 @@ ASSUMPTIONS = [
 ]
 PROBES = ["two_or_more_messages", "empty_message", "repeated_position_in_message", "duplicate_datagram_arrived",
           "refresh_over_partial", "message_during_handshake", "one_byte_change"]
-N_QUICK = 480
+N_QUICK = 1200
 
 
 def jobs(tier: str, base_seed: int):
